@@ -89,18 +89,18 @@ func main(a, b [8]byte) ([]byte, int32) {
 	"hmac": `package main
 
 import (
+	"bytes"
 	"crypto/hmac"
 	"encoding/binary"
-	"sort"
 )
 
 func main(k [8]byte, d [8]byte) ([]byte, uint32) {
 	m := hmac.SumSHA256(d[:], k[:])
-	arr := []int32{int32(k[0]), int32(d[0]), 7}
-	sort.Slice(arr, func(i, j int) bool {
-		return arr[i] < arr[j]
-	})
-	return m[0:4], binary.GetUint32(m[4:8]) + uint32(arr[0])
+	var r uint32 = binary.GetUint32(m[4:8])
+	if bytes.Compare(k[:], d[:]) < 0 {
+		r = r + uint32(k[0])
+	}
+	return m[0:4], r
 }
 `,
 	"aes": `package main
